@@ -110,6 +110,8 @@ def generate(rng, tier, n):
                           rng.choice([0o644, 0o600, 0o666])])
         sched.sort(key=lambda s: (s[0], s[1]))
         case["sched"] = sched
+        if not sched and not case["init"].get("sub") and i % 7 == 3:
+            case["strace"] = True      # cross-check the recorder against the kernel's view (fault-free runs only)
         i += 1
         yield case
 
@@ -174,6 +176,8 @@ def distribution(d, case, obs):
     bump("faults", str(len([s for s in case["sched"] if s[1] == "fault"])))
     bump("appear", str(len([s for s in case["sched"] if s[1] == "appear"])))
     bump("sweep", case.get("sweep", "random"))
+    if obs.get("strace"):
+        d["strace_cross_checked_runs"] = d.get("strace_cross_checked_runs", 0) + 1
     for e in obs["run"]["trace"]:
         if e[-1] is not None:
             bump("failed_event", e[0])
